@@ -154,7 +154,7 @@ def find_type_namer(S):
     """the function that turns the syn::Type of a parameter / annotated binding into the text kept in the event parser's symbol table:
     EventParser::extract_type_name, or — after a move / rename — the one new function `(&syn::Type) -> String` of the analysis modules"""
     fn = S.fn("EventParser", "extract_type_name")
-    if fn is not None:
+    if fn is not None and fn.name == "extract_type_name":
         return fn
     import srclib as _sl
     cands = []
@@ -195,6 +195,27 @@ def check_every_emit_recorded(P, rule):
                 rule.ok("%s: every recognised emit is recorded, whatever was recorded before" % short_path(fid))
     if not n:
         rule.bad(V(rule.id, "<anchor>", "missing:event-recording-site", "no push of an EventInfo found in the event parser"))
+
+
+def check_init_type_selector(P, rule):
+    """`let n = Notice::new(..)`: the type recorded for the variable is the path's leading segment; the function guards the selection with
+    `segments.len() >= 2`, under which every constant index other than 0 names (for the two-segment form the README documents) the constructor
+    function instead of the type.  Decided on the type-checked body: constant indices into the segment list."""
+    fs = [f for f in P.find("EventParser::infer_type_from_init") if f.id.endswith("infer_type_from_init")]
+    n = 0
+    for f in fs:
+        for c in f.calls:
+            if c.bb in f.reach_blocks and c.name == "index" and c.trait == "std::ops::Index" and len(c.args) > 1 and "Punctuated" in (c.self_ty or "") + " ".join(c.generics or []):
+                k = op_const(c.args[1])
+                if k is None or "int" not in k:
+                    continue
+                n += 1
+                if k["int"] != 0:
+                    rule.bad(V(rule.id, f.id, "init-type-from-segment:%s" % k["int"], "the type of `let v = Type::ctor(..)` is read from path segment %s: for "
+                               "`Type::new()` that is the function name, not the type" % k["int"], c.file, c.line))
+                else:
+                    rule.ok("infer_type_from_init: Type::ctor(..) records path segment 0")
+    return n
 
 
 def check_annotated_bindings(P, r7):
@@ -735,6 +756,7 @@ def check(ctx):
                 r7.bad(V(r7.id, part_, "listener-type-source:%s" % h_, "the listener is typed with `%s`, not with the qualified TypeScript rendering of the payload type" % h_))
     check_symbol_table_keys(P, r7)
     check_annotated_bindings(P, r7)
+    check_init_type_selector(P, r7)
     r7.require_floor(8, "payload typing facts")
     rules.append(r7)
 
